@@ -1544,6 +1544,158 @@ def getter_mutations(src=None):
     return out
 
 
+HIDDEN_DIRS = ["", "pf", "properties", "std_types", "component_models", "component_models/abstract_models",
+               "control", "timeseries", "multinet/control", "multinet/timeseries"]
+MEMO_NAMES = ("lru_cache", "cache", "cached_property", "memoize", "memoise", "memoized", "cached", "Memory")
+CONTAINER_CALLS = ("dict", "list", "set", "defaultdict", "OrderedDict", "Counter", "deque", "WeakKeyDictionary",
+                   "WeakValueDictionary")
+
+
+def hidden_state(src=None):
+    """state that lives outside the net object and survives a call: memoising decorators / wrappers, module
+    globals assigned or mutated inside functions, mutable default arguments that are mutated, attributes set on
+    function objects.  Scanned over every module of the calculation packages (not only reachable functions:
+    fail closed).  -> [(module, where, kind)]"""
+    root = src or SRC
+    out = []
+    for d in HIDDEN_DIRS:
+        dd = os.path.join(root, d)
+        if not os.path.isdir(dd):
+            raise ScanError("package directory missing: " + d)
+        for f in sorted(os.listdir(dd)):
+            if not f.endswith(".py"):
+                continue
+            rel = (d + "/" if d else "") + f
+            tree = ast.parse(open(os.path.join(dd, f)).read(), rel)
+            out += _hidden_in_module(tree, rel)
+    return sorted(set(out))
+
+
+def _is_container(v):
+    if isinstance(v, (ast.Dict, ast.List, ast.Set, ast.DictComp, ast.ListComp, ast.SetComp)):
+        return True
+    if isinstance(v, ast.Call):
+        n = v.func.id if isinstance(v.func, ast.Name) else v.func.attr if isinstance(v.func, ast.Attribute) else ""
+        return n in CONTAINER_CALLS
+    return False
+
+
+def _memo_name(e):
+    """name of a memoising decorator / wrapper expression, or None"""
+    if isinstance(e, ast.Call):
+        return _memo_name(e.func)
+    n = e.id if isinstance(e, ast.Name) else e.attr if isinstance(e, ast.Attribute) else None
+    return n if n in MEMO_NAMES else None
+
+
+def _hidden_in_module(tree, rel):
+    out = []
+    glob, funcs = {}, set()
+    for n in tree.body:
+        if isinstance(n, (ast.Assign, ast.AnnAssign)):
+            tg = n.targets if isinstance(n, ast.Assign) else [n.target]
+            for t in tg:
+                if isinstance(t, ast.Name):
+                    glob[t.id] = n.value
+        elif isinstance(n, (ast.FunctionDef, ast.AsyncFunctionDef)):
+            funcs.add(n.name)
+    # memoising wrappers anywhere: decorators and calls
+    for n in ast.walk(tree):
+        if isinstance(n, (ast.FunctionDef, ast.AsyncFunctionDef, ast.ClassDef)):
+            for dec in n.decorator_list:
+                m = _memo_name(dec)
+                if m:
+                    out.append((rel, n.name, "memoising decorator @" + m))
+        if isinstance(n, ast.Call):
+            m = _memo_name(n.func)
+            if m and not any(n is d or (isinstance(d, ast.Call) and d.func is n.func)
+                             for fn in ast.walk(tree) if isinstance(fn, (ast.FunctionDef, ast.ClassDef))
+                             for d in fn.decorator_list):
+                out.append((rel, getattr(n, "lineno", 0) and "line %d" % n.lineno, "memoising wrapper " + m + "(...)"))
+    # functions: globals assigned / mutated, mutable defaults mutated, attributes on function objects
+    for fn in ast.walk(tree):
+        if not isinstance(fn, (ast.FunctionDef, ast.AsyncFunctionDef)):
+            continue
+        local = set(a.arg for a in fn.args.posonlyargs + fn.args.args + fn.args.kwonlyargs)
+        if fn.args.vararg:
+            local.add(fn.args.vararg.arg)
+        if fn.args.kwarg:
+            local.add(fn.args.kwarg.arg)
+        declared_global = set()
+        for n in ast.walk(fn):
+            if isinstance(n, (ast.Global, ast.Nonlocal)):
+                declared_global |= set(n.names)
+        for n in ast.walk(fn):
+            tg = []
+            if isinstance(n, ast.Assign):
+                tg = n.targets
+            elif isinstance(n, (ast.AugAssign, ast.AnnAssign)):
+                tg = [n.target]
+            elif isinstance(n, (ast.For, ast.comprehension)):
+                tg = [n.target]
+            elif isinstance(n, ast.With):
+                tg = [i.optional_vars for i in n.items if i.optional_vars is not None]
+            elif isinstance(n, ast.NamedExpr):
+                tg = [n.target]
+            for t in tg:
+                for x in ast.walk(t):
+                    if isinstance(x, ast.Name) and isinstance(x.ctx, ast.Store) and x.id not in declared_global:
+                        local.add(x.id)
+        mutable_defaults = {}
+        pos = fn.args.posonlyargs + fn.args.args
+        for a, dv in list(zip(pos[len(pos) - len(fn.args.defaults):], fn.args.defaults)) + \
+                [(a, dv) for a, dv in zip(fn.args.kwonlyargs, fn.args.kw_defaults) if dv is not None]:
+            if _is_container(dv):
+                mutable_defaults[a.arg] = True
+
+        def root_name(e):
+            while isinstance(e, (ast.Attribute, ast.Subscript)):
+                e = e.value
+            return e.id if isinstance(e, ast.Name) else None
+        for n in ast.walk(fn):
+            stores = []
+            if isinstance(n, ast.Assign):
+                stores = n.targets
+            elif isinstance(n, (ast.AugAssign, ast.AnnAssign)):
+                stores = [n.target]
+            elif isinstance(n, ast.Delete):
+                stores = n.targets
+            for t in stores:
+                for x in ([t] if not isinstance(t, (ast.Tuple, ast.List)) else t.elts):
+                    if isinstance(x, ast.Name):
+                        if x.id in declared_global:
+                            out.append((rel, fn.name, "assigns module global " + x.id))
+                        elif isinstance(n, ast.AugAssign) and x.id in mutable_defaults:
+                            out.append((rel, fn.name, "mutates default argument " + x.id))
+                        continue
+                    r = root_name(x)
+                    if r is None:
+                        continue
+                    if r in mutable_defaults:
+                        out.append((rel, fn.name, "mutates default argument " + r))
+                    elif r not in local and (r in glob or r in declared_global) and r not in ("self", "cls"):
+                        out.append((rel, fn.name, "writes into module global " + r))
+                    elif r not in local and r in funcs and isinstance(x, ast.Attribute):
+                        out.append((rel, fn.name, "sets attribute on function object " + r))
+            if isinstance(n, ast.Call) and isinstance(n.func, ast.Attribute) and n.func.attr in MUTATING_METHODS:
+                r = root_name(n.func.value)
+                if r in mutable_defaults:
+                    out.append((rel, fn.name, "mutates default argument %s (.%s)" % (r, n.func.attr)))
+                elif r is not None and r not in local and r in glob and _is_container(glob[r]):
+                    out.append((rel, fn.name, "mutates module global %s (.%s)" % (r, n.func.attr)))
+            if isinstance(n, ast.Call) and isinstance(n.func, ast.Name) and n.func.id == "setattr" and n.args:
+                r = root_name(n.args[0])
+                if r in funcs or (r in glob and r not in local):
+                    out.append((rel, fn.name, "setattr on module-level object " + str(r)))
+    # attributes set on function objects at module level:  f.cache = {}
+    for n in tree.body:
+        if isinstance(n, ast.Assign):
+            for t in n.targets:
+                if isinstance(t, ast.Attribute) and isinstance(t.value, ast.Name) and t.value.id in funcs:
+                    out.append((rel, "<module>", "attribute on function object %s.%s" % (t.value.id, t.attr)))
+    return out
+
+
 def inspected_option_keys(sc):
     """constant keys by which init_options / _iteration_check / _mode_check look into the option layers;
     a key held in a local name is resolved through that function's constant assignments / constant loops,
@@ -1719,6 +1871,11 @@ def generate(src=None):
              clist([cstr(k) for k in inspected_option_keys(sc)]) + ".\n")
     L.append("Definition hyd_flag_mentions : list (string * string) := " +
              clist(["(%s, %s)" % (cstr(a), cstr(b)) for a, b in hyd_flag_literals(sc)]) + ".\n")
+    hs = hidden_state(src)
+    L.append("(* (module, function, kind): state outside the net that survives a call (memoisation, module globals, ...) *)")
+    L.append("Definition hidden_state : list (string * string * string) := " +
+             clist(["(%s, %s, %s)" % (cstr(a), cstr(b), cstr(c)) for a, b, c in hs]) + ".\n")
+    sc.hidden_state = hs
     L.append("Definition getter_mutations : list (string * string) := " +
              clist(["(%s, %s)" % (cstr(a), cstr(b)) for a, b in getter_mutations(src)]) + ".\n")
     def walk_subs():
@@ -1809,4 +1966,5 @@ if __name__ == "__main__":
     print("hyd:", hyd_flag_literals(sc))
     print("inspected:", inspected_option_keys(sc))
     print("getter mutations:", getter_mutations(sys.argv[1] if len(sys.argv) > 1 else None))
+    print("hidden state:", sc.hidden_state)
     print("functions:", len(sc.reach), "text bytes", len(text))
